@@ -49,7 +49,8 @@ Theorem C06_operation_refines_climb : forall glue body valuef (qs : list nat) (l
   = Some (Some skip_end, mkst b_end (F ++ ritems glue body (climb (Leaf 0, mkin 0 qs)))).
 Proof. exact op_loop_climb. Qed.
 
-(* Instantiated for every expression over numbers, percentages, + - * / ^ **, casts `to <unit word>` and parentheses -- any
+(* Instantiated for every expression over numbers, percentages, + - * / ^ **, casts `to <unit word>`, parentheses and function
+   calls f(e1, ..., en) whose arguments are again such expressions -- any
    number of operators, any depth of nesting, any (or no) blanks between any two tokens and at either end of the query
    ([wf_expr]: only a unit word must be set off by a blank from a following * / ^ or `to`, which would otherwise be read into
    the unit): the parser returns, for every token list of that shape, the tree in which each parenthesised group stands on its
@@ -101,6 +102,14 @@ Example C06_expression_example :
              (TCons [] AStar [42%N] [] (Num [52%N]) TNil)) in
   parse_root (wst [[32%N]] ++ toks_expr e ++ wst []) = Some (trees_expr [[32%N]] e ++ wsT []) /\
   length (toks_expr e) = 11.
+Proof. split; [apply parse_expression; cbn; tauto|reflexivity]. Qed.
+
+(* a parenthesised group and a function argument are parsed on their own: "2*f(1+2 , 3)" with its blanks *)
+Example C06_call_example :
+  let arg1 := Chain (Num [49%N]) (TCons [] APlus [43%N] [] (Num [50%N]) TNil) in
+  let e := Chain (Num [50%N]) (TCons [] AStar [42%N] []
+             (Call [102%N] [40%N] [41%N] (AOne [] arg1 (MComma [[32%N]] [44%N] [[32%N]] (Chain (Num [51%N]) TNil) (MEnd [])))) TNil) in
+  parse_root (wst [] ++ toks_expr e ++ wst []) = Some (trees_expr [] e ++ wsT []) /\ length (toks_expr e) = 12.
 Proof. split; [apply parse_expression; cbn; tauto|reflexivity]. Qed.
 
 (* `to` binds loosest: "1 to m + 2" is read as 1 to (m + 2), one cast whose right side is the sum *)
